@@ -332,6 +332,16 @@ example : ∃ ds', drun exCd (Lockstep.FGMRES.prog exFg id 0)
     (by decide) (by decide) (fun _ => size_replicate3) (fun _ => size_replicate3) it res x w h
   exact ⟨ds', h1, it, res, h2, h4⟩
 
+/-- the runs above are not trivial: the serial models (hence, by the theorems, EVERY rank of the distributed runs)
+make two passes / two Arnoldi steps -/
+example : (match Solver.BiCGStab.solve exBi (innerProductSerial id) id 0 exA exP (Solver.BiCGStab.Work.fresh 3)
+      #[1, 2, 3] #[0, 0, 0] with
+    | .ok (it, _, _, _) => decide (it = 2) | _ => false) = true := by decide +kernel
+
+example : (match Solver.GMRES.solve exGm (innerProductSerial id) id 0 exA exP (Solver.GMRES.Work.fresh 3)
+      #[1, 2, 3] #[0, 0, 0] with
+    | .ok (it, _, _, _) => decide (it = 2) | _ => false) = true := by decide +kernel
+
 example : ∃ ds', drun exCd (Lockstep.Preonly.prog : Prog Rat Unit)
       (distribute exCd.part (Lockstep.Preonly.initState #[1, 2, 3] #[0, 0, 0])) = some ds' ∧
     concatVec (ds'.vec Lockstep.Preonly.vX) = #[1/2, 2/3, 3/2] := by
